@@ -187,12 +187,34 @@ def run_check(pid, tier, seed, replay=None, jobs=None):
     for hid, k in sorted(known.items()):
         print("KNOWN-FINDING: property=%s %s [%s; %d clause instance(s), first in scenario %s: %s]" % (
             pid, k["hit"]["what"], hid, k["n"], k["first"][0], json.dumps(k["first"][1])[:200]))
+    # shrink the first violating scenarios (greedy, a handful of attempts): the replay file then holds a smaller stimulus that
+    # still breaks the same clause, next to the original one
+    shrunk = {}
+    if confirmed and hasattr(mod, "shrink") and not replay and not os.environ.get("VERIF_NOSHRINK"):
+        for sc, r, vbad in confirmed[:2]:
+            keys = {k for k, _ in vbad}
+            best, tries = sc, 0
+            improved = True
+            while improved and tries < 8:
+                improved = False
+                for cand in mod.shrink(best):
+                    tries += 1
+                    r2 = _exec_one(pid, cand, os.path.join(work, "shrink%d" % tries), False)
+                    ks2 = {(keyf(e, cand) if keyf else default_key(e)) for e in (r2.get("bad") or [])}
+                    if not r2["error"] and keys & ks2:
+                        best, improved = cand, True
+                        break
+                    if tries >= 8:
+                        break
+            if best is not sc:
+                shrunk[sc["name"]] = best
     nviol = 0
     for sc, r, vbad in confirmed:
         nviol += 1
         path = os.path.join(env.VERIF, "replays", "%s_%s.json" % (pid, "".join(c if c.isalnum() else "_" for c in sc["name"])[:80]))
         with open(path, "w") as f:
-            json.dump(dict(property=pid, scenario=sc, failing=[dict(key=k, clause=e) for k, e in vbad][:50],
+            json.dump(dict(property=pid, scenario=shrunk.get(sc["name"], sc), original_scenario=sc if sc["name"] in shrunk else None,
+                           failing=[dict(key=k, clause=e) for k, e in vbad][:50],
                            sample=r.get("sample")), f, indent=1, default=str)
         print("VIOLATION property=%s replay=%s" % (pid, path))
         for k, e in vbad[:5]:
